@@ -228,7 +228,8 @@ CHECKS = {
          'paths load PC from imm16/HL/vector/popped word/PC+2+sext(e8); PUSH/CALL/RST/POP/RET/RETI stack protocol '
          '(addresses mod 2^16, byte order, SP update); is_block_end exactly on control/halt/IME variants; the 11 '
          'undefined opcodes decode to Invalid and diverge untouched; status codes; operand fetch never indexes past '
-         'the slice run_next_op hands to decode() (window derived from the fetch code). Value level (C06.8): PC mod 2^16, SP '
+         'the slice run_next_op hands to decode() (window derived from the fetch code), and a window assembled through the bus '
+         'holds memory_read_byte(PC + i) in byte i for every byte an instruction can consume. Value level (C06.8): PC mod 2^16, SP '
          'and every stack address and byte equal the SM83 reference for all operands, and no operand makes run_op diverge.',
     note=TB + 'Assumes 16-bit register pairs at instruction entry (C05.4). PC above 0xffff is not reduced by the '
          'interpreter and is reported as information only.' + VL,
@@ -256,7 +257,9 @@ CHECKS['C15'] = dict(
          'and horizontal flip; LCDC decode and unsigned / signed tile addressing; BGP / OBP decode; per OAM entry the on-line '
          'test, vertical flip, the 8x16 tile-number rule, attribute bits, OAM order and the ten-object limit; the object '
          'line cache cell format and its write guard; per pixel of the mode-3 loop the BG/OBJ mixing rule, the palette cell '
-         'used, the position LY*160+x and the advance of the caches.  If one of these is wrong some frame is wrong; all of them '
+         'used, the position LY*160+x and the advance of the caches; the tile fetch (map cell and tile row for background and '
+         'window, tile x advancing modulo 32); the pixel phase at the start of a 4-dot group ((d + SCX) mod 8, or (d + 7 - WX) '
+         'mod 8 inside the window).  If one of these is wrong some frame is wrong; all of them '
          'holding does not make every frame right.',
     note=TB + 'The shade bytes are an arbitrary injective encoding of the four DMG shades.  Loop-carried state is summarised: '
          'the per-iteration rules say what one step does, not that the steps are composed in the right order.' + VL,
